@@ -815,5 +815,5 @@ class Exec(EvalMixin, CallMixin):
                 assume_typed(s, t, ek, hb)
                 bind_names(s, tgt, SV(t, ek, hb))
             return {"guard": lambda s: k_of(s) < ops.l_len(view or s, r), "bind": bind,
-                    "bound": lambda s: ops.l_len(view or s, r)}
+                    "bound": lambda s: ops.l_len(view or s, r), "enum": base}
         raise OutOfSubset("for loop over kind %r (line %s)" % (base.k, node.lineno))
